@@ -98,3 +98,67 @@ package transaction
 //@   ensures result1 == nil ==> types.balanceOf(payer) == old(types.balanceOf(payer)) - fee && *gp == old(*gp) - tx.GasLimit() && result0 <= gasLimit
 //@   ensures result1 != nil ==> result0 == 0
 //@   nopanic
+
+// ---------------------------------------------------------------------------------------------------------------------
+// C11: vote tallies over the ghost account model (types.votesOf / voteForKey / isCand).
+// modifyCandidateVotes moves exactly modifyVotes from the voter's previous candidate (if it is still registered) to the new one.
+//@ func (*CandidateVoteEnv).modifyCandidateVotes
+//@   props C11
+//@   requires c != nil && c.am != nil && voterAccount != nil && newCandidateAccount != nil && modifyVotes != nil
+//@   let ex = val(modifyVotes); oldAddr = voterAccount.GetVoteFor(); oldc = c.am.GetAccount(oldAddr)
+//@   let moved = ex > 0 && oldAddr != common.Address{} && types.isCand(oldc)
+//@   modifies gh("votes", newCandidateAccount), gh("votes", oldc)
+//@   ensures ex <= 0 ==> types.votesOf(newCandidateAccount) == old(types.votesOf(newCandidateAccount)) && types.votesOf(oldc) == old(types.votesOf(oldc))
+//@   ensures ex > 0 && (!moved || oldc != newCandidateAccount) ==> types.votesOf(newCandidateAccount) == old(types.votesOf(newCandidateAccount)) + ex
+//@   ensures moved && oldc != newCandidateAccount ==> types.votesOf(oldc) == old(types.votesOf(oldc)) - ex
+//@   ensures ex > 0 && !moved && oldc != newCandidateAccount ==> types.votesOf(oldc) == old(types.votesOf(oldc))
+//@   ensures moved && oldc == newCandidateAccount ==> types.votesOf(oldc) == old(types.votesOf(oldc))
+//@   nopanic
+
+// a vote: only for a registered candidate, not twice for the same one; the voter's weight floor(balance / VoteExchangeRate) is added
+// to the new candidate and taken from the previous one (if that one is still registered); the voter now votes for the new candidate
+//@ func (*CandidateVoteEnv).CallVoteTx
+//@   props C11
+//@   requires c != nil && c.am != nil && initialBalance != nil && val(initialBalance) >= 0 && params.VoteExchangeRate != nil && val(params.VoteExchangeRate) > 0
+//@   let newc = c.am.GetAccount(newCandidateAddr); v = c.am.GetAccount(voter); ex = val(initialBalance) / val(params.VoteExchangeRate)
+//@   let oldAddr = v.GetVoteFor(); oldc = c.am.GetAccount(oldAddr)
+//@   modifies gh("votes", newc), gh("votes", oldc), gh("voteFor", v)
+//@   ensures result == nil ==> types.isCand(newc) && oldAddr != newCandidateAddr && types.voteForKey(v) == types.akey(newCandidateAddr)
+//@   ensures result == nil && ex > 0 ==> types.votesOf(newc) == old(types.votesOf(newc)) + ex
+//@   ensures result == nil && ex > 0 && oldAddr != common.Address{} && types.isCand(oldc) ==> types.votesOf(oldc) == old(types.votesOf(oldc)) - ex
+//@   ensures result == nil && (ex <= 0 || oldAddr == common.Address{} || !types.isCand(oldc)) ==> types.votesOf(oldc) == old(types.votesOf(oldc))
+//@   ensures result == nil && ex <= 0 ==> types.votesOf(newc) == old(types.votesOf(newc))
+//@   ensures result != nil ==> types.votesOf(newc) == old(types.votesOf(newc)) && types.votesOf(oldc) == old(types.votesOf(oldc)) && types.voteForKey(v) == old(types.voteForKey(v))
+//@   nopanic
+
+// a balance change moves the corresponding number of votes of the account's current candidate (if registered)
+//@ func changeCandidateVotes
+//@   props C11
+//@   requires am != nil && changeVotes != nil
+//@   let acc = am.GetAccount(accountAddress); candAddr = acc.GetVoteFor(); cand = am.GetAccount(candAddr)
+//@   modifies gh("votes", cand)
+//@   ensures candAddr != common.Address{} && types.isCand(cand) ==> types.votesOf(cand) == old(types.votesOf(cand)) + val(changeVotes)
+//@   ensures candAddr == common.Address{} || !types.isCand(cand) ==> types.votesOf(cand) == old(types.votesOf(cand))
+//@   nopanic
+
+// a deposit top-up adds exactly floor(new/rate) - floor(old/rate) votes (never removes any)
+//@ func addDepositChangeVotes
+//@   props C11
+//@   requires oldDeposit != nil && newDeposit != nil && senderAcc != nil && params.DepositExchangeRate != nil && val(params.DepositExchangeRate) > 0 && val(oldDeposit) >= 0 && val(newDeposit) >= 0
+//@   let d = val(newDeposit) / val(params.DepositExchangeRate) - val(oldDeposit) / val(params.DepositExchangeRate)
+//@   modifies gh("votes", senderAcc)
+//@   ensures d > 0 ==> types.votesOf(senderAcc) == old(types.votesOf(senderAcc)) + d
+//@   ensures d <= 0 ==> types.votesOf(senderAcc) == old(types.votesOf(senderAcc))
+//@   nopanic
+
+// refunds move balances only (assumed)
+//@ func (*CandidateVoteEnv).refundDeposit   trusted
+//@   modifies ghall("balance")
+
+// unregistering clears the registration flag and zeroes the tally
+//@ func (*CandidateVoteEnv).unRegisterCandidate
+//@   props C11
+//@   requires c != nil && c.am != nil && candidateAcc != nil
+//@   modifies gh("votes", candidateAcc), gh("isCand", candidateAcc), ghall("balance")
+//@   ensures result ==> !types.isCand(candidateAcc) && types.votesOf(candidateAcc) == 0
+//@   ensures !result ==> types.isCand(candidateAcc) == old(types.isCand(candidateAcc)) && types.votesOf(candidateAcc) == old(types.votesOf(candidateAcc))
